@@ -86,6 +86,10 @@ def _table_cases():
         for pos in ('param', 'return', 'field'):
             for variant in ('str', 'conststr', 'strv'):
                 cases.append({'kind': 'table', 'spelling': sp, 'pos': pos, 'variant': variant})
+    # returned values spelled through a typedef declared in the scanned header
+    for target in ('conststr', 'str', 'guint32', 'gpointer'):
+        for depth in (1, 2):
+            cases.append({'kind': 'table', 'spelling': 'typedef:' + target, 'pos': 'return', 'variant': 'alias%d' % depth})
     for sp in ('gpointer', 'gconstpointer', 'void*', 'constvoid*'):
         for pos in ('param', 'return', 'field'):
             cases.append({'kind': 'table', 'spelling': sp, 'pos': pos, 'variant': 'untyped'})
@@ -123,8 +127,42 @@ def _typeinfo(el):
     return None, None, None, None
 
 
+def _check_alias_return(case, ctx):
+    """`typedef const char *FooName; FooName foo_f (void);`: the defaults of the statement apply to the type the
+    typedef stands for (returned const values and basic types are not transferred, non-const strings are)."""
+    target = case['spelling'].split(':', 1)[1]
+    depth = int(case['variant'][-1])
+    base = {'conststr': _t('char', q=CONST, ptrs=[0]), 'str': _t('char', ptrs=[0]), 'guint32': _t('guint32'),
+            'gpointer': _t('gpointer')}[target]
+    decls = [{'d': 'typedef', 'name': 'FooName', 'type': base}]
+    used = 'FooName'
+    if depth == 2:
+        decls.append({'d': 'typedef', 'name': 'FooName2', 'type': _t('FooName')})
+        used = 'FooName2'
+    decls.append({'d': 'function', 'name': 'foo_f', 'ret': _t(used), 'params': []})
+    ns, res = _run(decls, [], ctx, includes=('GLib-2.0',))
+    f = ns.find(GI + 'function')
+    if f is None:
+        raise Violation('function-missing', used)
+    rv = f.find(GI + 'return-value')
+    kind, name, ctype, tel = _typeinfo(rv)
+    if name != used[3:]:
+        raise Violation('alias-return-type-name', '%s: %r' % (used, name))
+    exp = {'conststr': 'none', 'str': 'full', 'guint32': 'none', 'gpointer': 'none'}[target]
+    tr = rv.get('transfer-ownership')
+    if tr != exp and depth == 2 and ctx.known('return-transfer:alias-of-alias'):
+        pass
+    elif tr != exp:
+        raise Violation('return-transfer-through-typedef', 'typedef of %s (depth %d) returned: transfer %r, expected %s'
+                        % (target, depth, tr, exp))
+    ctx.label('table:alias-return')
+    ctx.note_nontrivial(case)
+
+
 def _check_table(case, ctx):
     sp, pos, variant = case['spelling'], case['pos'], case['variant']
+    if sp.startswith('typedef:'):
+        return _check_alias_return(case, ctx)
     if variant == 'plain':
         t = _t(sp)
     elif variant == 'const':
